@@ -164,15 +164,22 @@ class EEMSWrite(SameArrayShapeMixin, Command):
                 mask |= numpy.ma.getmaskarray(arr)
 
             for command in commands:
+                data = numpy.ma.MaskedArray(command.result.data, mask)
+
+                # The marker for missing cells must not equal a value that is present: those cells would read back as missing
+                fill_value = command.result.fill_value
+                if (data.compressed() == fill_value).any():
+                    fill_value = numpy.ma.default_fill_value(data)
+
                 variable = dataset.createVariable(
                     command.result_name,
                     command.result.dtype.char,
                     dimensions,
-                    fill_value=command.result.fill_value,
+                    fill_value=fill_value,
                     compression="zlib",
                     complevel=1,
                 )
-                variable[:] = numpy.ma.MaskedArray(command.result.data, mask)
+                variable[:] = data
 
                 # Apply CRS metadata
                 if esri_pe:
